@@ -6,6 +6,8 @@ import Mouette.Lemmas.C04Stl
 import Mouette.Lemmas.C04Ref
 import Mouette.Lemmas.C04MeditRef
 import Mouette.Generated.C04Dispatch
+import Mouette.Generated.C04Glue
+import Mouette.Lemmas.C04Save
 /-!
 # C04 (round 4) — the theorems of `Props/C04.lean` transferred to what the SOURCE says now
 
@@ -175,6 +177,25 @@ theorem off_reads_reference_source_actual (cd : Codec C) (h : RoundTrips cd) (m 
     C04R.parseOff cd (refExportOff cd m) = some { verts := m.verts, faces := ofArity 3 m.faces, cells := ofArity 4 m.faces } := by
   rw [parse_off_bridge]; exact importOff_refExportOff_actual cd h m hf
 
+/-! ### round 6: `parse_field` + `import_medit` read from the source (while-loop over the deque ↔ the line-by-line automaton) -/
+
+/-- the `while data:` loop of `import_medit` (keyword line, count line, `nv` vertex lines / `parse_field` blocks, `End` = break, any
+other line skipped), run with more fuel than lines, computes what the automaton `stepMedit` of the hand model computes -/
+theorem import_medit_bridge (cd : Codec C) (file : File) : C04R.importMedit cd file = importMedit cd file := importMedit_bridge cd file
+
+/-- `parse_field`'s record `[int(u) - 1 for u in line][:nelem]` is the modelled `readField` -/
+theorem parse_field_bridge (k : Nat) (l : Line) : C04R.fieldRecord k l = readField k l := rfl
+
+/-- medit, BOTH directions as the source has them now (under `HardOk`: every `hard_edges` key is an edge index) -/
+theorem medit_round_trip_source (cd : Codec C) (h : RoundTrips cd) (m : Raw C) (hk : HardOk m) :
+    C04R.importMedit cd (C04W.exportMedit cd m) = some (restrictMedit m) := by
+  rw [import_medit_bridge]; exact medit_load_save_source cd h m hk
+
+/-- the translated reader loads the file of an independent medit writer (other block order, version 2, reference column 0, `End`) -/
+theorem medit_reads_reference_source (cd : Codec C) (h : RoundTrips cd) (m : Raw C) :
+    C04R.importMedit cd (refExportMedit cd m) = some (refMeditContent m) := by
+  rw [import_medit_bridge]; exact importMedit_refExportMedit cd h m
+
 /-! ### extension dispatch and class of the loaded object -/
 
 /-- every extension is routed to `import_<module>` / `export_<module>` of ONE codec module (no format reads with one codec and
@@ -241,6 +262,35 @@ theorem xyz_save_load_pipeline_source (cd : Codec C) (h : RoundTrips cd) (ig : I
   have : C04D.instantiate none 0 = some "PointCloud" := by decide
   simp [restrictXyz, dim, this]
 
+theorem medit_save_load_pipeline_source (cd : Codec C) (h : RoundTrips cd) (ig : Ignore) (m : Raw C) (hk : HardOk (applyIgnore ig m)) :
+    ("mesh", "medit", "export_medit") ∈ C04D.writeRows ∧ ("mesh", "medit", "import_medit") ∈ C04D.readRows ∧
+    (C04R.importMedit cd (C04W.exportMedit cd (applyIgnore ig m))).map (fun r => (r, C04D.instantiate none (dim r)))
+      = some (restrictMedit (applyIgnore ig m), some (className (dim (restrictMedit (applyIgnore ig m))))) := by
+  refine ⟨by decide, by decide, ?_⟩
+  rw [medit_round_trip_source cd h _ hk]
+  simp [load_class_source]
+
+/-! ### round 6: the glue of `mesh.py` (`load`, `save`) read statement by statement -/
+
+/-- `load(file, raw=True)` hands back what the reader returned, untouched -/
+theorem load_raw_source {α : Type} (d : α) (dimf : α → Nat) (k : Option Int) :
+    C04G.load (some d) dimf k true = some (.rawData d) := rfl
+
+/-- `load(file)`: the object built from the content read, of the class its dimensionality implies; a reader that raises = no result -/
+theorem load_mesh_source (m : Raw C) :
+    C04G.load (some m) dim none false = some (.mesh (some (className (dim m))) m) ∧
+    C04G.load (none : Option (Raw C)) dim none false = none := by
+  refine ⟨?_, rfl⟩
+  simp [C04G.load, load_class_source]
+
+/-- `save`: what reaches `write_by_extension` is the mesh itself without `ignore_elements`, its restriction `applyIgnore` with it -/
+theorem save_content_source (ig : Ignore) (m : Raw C) :
+    C04G.saveContent none m = m ∧ C04G.saveContent (some ig) m = applyIgnore ig m := by
+  refine ⟨rfl, ?_⟩
+  have h : Mouette.Generated.C04Save.ignoreRows = Tables.saveIgnoreRows := by decide
+  simp only [C04G.saveContent, h]
+  exact (Mouette.IO.Tables.applyIgnore_table ig m).symm
+
 /-! ### non-vacuity -/
 
 private def demo : Raw Unit :=
@@ -264,6 +314,11 @@ example : C04R.parseObj ucd (C04W.exportObj ucd {} demo) = some (restrictObj {} 
     (C04R.parseOff ucd (C04W.exportOff ucd demo)).map (fun r => (r.faces, r.cells)) = some ([[0, 1, 2]], [[0, 2, 3, 1]]) ∧
     C04R.parseObj ucd [[Tok.kw "f", Tok.kw "1/2/3"]] = none ∧ C04R.parseOff ucd [[Tok.kw "COFF"], [Tok.int 0, Tok.int 0, Tok.int 0]] = none := by
   decide
+example : C04R.importMedit ucd (C04W.exportMedit ucd demo) = some (restrictMedit demo) ∧ (restrictMedit demo).edges = [(2, 3), (0, 1)] ∧
+    C04R.importMedit ucd [[Tok.kw "Triangles"], [Tok.int 2], [Tok.int 1, Tok.int 2, Tok.int 3, Tok.int 1]] = none ∧
+    (C04R.importMedit ucd [[Tok.kw "End"], [Tok.kw "Triangles"], [Tok.int 5]]).map (·.faces) = some [] := by decide
+example : C04G.load (some demo) dim (some 1) false = some (.mesh (some "VolumeMesh") demo) ∧
+    (C04G.saveContent (some { cells := true }) demo).cells = [] ∧ (C04G.saveContent (some { cells := true }) demo).faces = demo.faces := by decide
 example : C04D.instantiate none (dim demo) = some "VolumeMesh" ∧ C04D.instantiate (some 2) 0 = some "SurfaceMesh" := by decide
 
 end Mouette.Props.C04Source
